@@ -26,6 +26,11 @@
   * every IPMI message is addressed to the BMC (20h) and has two valid checksums
   * a datagram that is lost still counts (`stepLost`): a retransmission after a time-out is a new
     datagram and carries the next sequence number; a repeated number is flagged (`seq-step`)
+  * a request may be refused (`stepRefused`): the BMC answers with an error completion code and
+    does not execute it; like a lost datagram it has been on the wire and is counted
+  * a session that is never activated leaves no session behind (`Phase.sessionOpen`): only
+    `active` is an open session; a temporary session id handed out by Get Session Challenge
+    that is never activated simply expires
 
   Core only.
 -/
@@ -280,6 +285,40 @@ def stepLost (md5 : List Nat → List Nat) (cfg : BmcCfg) (st : BmcState) (dgram
     | .active a _, some p => ({ st with phase := .active a (some p.seq) }, .reply r)
     | _, _ => (st, .reply r)
 
+/-! ### faults: what can go wrong with one datagram (the quantifier "an error reply or silence") -/
+
+inductive Fault where
+  | silence               -- the datagram, or its answer, is lost
+  | refuse (cc : Nat)     -- the BMC answers with completion code `cc` (≠ 0) and does not execute the command
+  deriving Repr, DecidableEq
+
+/-- The answer of a BMC that refuses the request in `dgram` with completion code `cc`: no data
+after the completion code; it goes out under the session header values of the request
+(authentication type, session id) with the BMC's outbound sequence number.  (A presence ping
+has no completion code: it cannot be refused, only lost.) -/
+def refusal (md5 : List Nat → List Nat) (cfg : BmcCfg) (st : BmcState) (cc : Nat) (dgram : List Nat) : List Nat :=
+  match parseLan dgram with
+  | some p =>
+    match parseIpmiReq p.payload with
+    | some rq => lanPacket md5 p.auth cfg.pw p.sid st.outSeq (ipmiRsp rq cc [])
+    | none => []
+  | none => []
+
+/-- A request that the BMC refuses.  The monitor validates the datagram like any other and
+counts its session sequence number (it has been on the wire: `stepLost`); the BMC does not
+execute the command (phase unchanged: a refused Activate Session grants nothing, a refused Close
+Session leaves the session open). -/
+def stepRefused (md5 : List Nat → List Nat) (cfg : BmcCfg) (st : BmcState) (cc : Nat) (dgram : List Nat) :
+    BmcState × Verdict :=
+  match stepLost md5 cfg st dgram with
+  | (st', .protocolError w) => (st', .protocolError w)
+  | (st', .reply _) => (st', .reply (refusal md5 cfg st cc dgram))
+
+/-- does the BMC hold an open session (one that Close Session would have to end)? -/
+def Phase.sessionOpen : Phase → Bool
+  | .active _ _ => true
+  | _ => false
+
 /-- the BMC as a peer of a remote console: it answers, or stays silent when it objects -/
 def peer (md5 : List Nat → List Nat) (cfg : BmcCfg) (st : BmcState) (d : List Nat) :
     BmcState × Option (List Nat) :=
@@ -294,6 +333,30 @@ def lossy (md5 : List Nat → List Nat) (cfg : BmcCfg) (plan : Nat → Bool) :
   | (i, st), d =>
     if plan i then ((i + 1, (stepLost md5 cfg st d).1), none)
     else ((i + 1, (peer md5 cfg st d).1), (peer md5 cfg st d).2)
+
+/-- the BMC with a fault plan: `plan i` tells what happens to datagram number `i` (counted from 0
+over everything the console transmits): `none` = it is answered -/
+def faulty (md5 : List Nat → List Nat) (cfg : BmcCfg) (plan : Nat → Option Fault) :
+    Nat × BmcState → List Nat → (Nat × BmcState) × Option (List Nat)
+  | (i, st), d =>
+    match plan i with
+    | none => ((i + 1, (peer md5 cfg st d).1), (peer md5 cfg st d).2)
+    | some .silence => ((i + 1, (stepLost md5 cfg st d).1), none)
+    | some (.refuse cc) =>
+      ((i + 1, (stepRefused md5 cfg st cc d).1),
+       match (stepRefused md5 cfg st cc d).2 with
+       | .reply r => some r
+       | .protocolError _ => none)
+
+/-- how many consecutive transmissions a fault has to hit to make one request fail when the
+console transmits every request up to `R + 1` times: silence all of them, a refusal the first -/
+def Fault.span (R : Nat) : Fault → Nat
+  | .silence => R + 1
+  | .refuse _ => 1
+
+/-- the fault plan "fault `f` on the `n` datagrams number `i0 … i0 + n - 1`, none elsewhere" -/
+def faultAt (i0 n : Nat) (f : Fault) : Nat → Option Fault :=
+  fun i => if i0 ≤ i ∧ i < i0 + n then some f else none
 
 /-- run the monitor over a list of datagrams; the final state tells whether any was flagged -/
 def run (md5 : List Nat → List Nat) (cfg : BmcCfg) : BmcState → List (List Nat) → BmcState
